@@ -25,6 +25,7 @@ func init() {
 			{"C06/receive", "client->host: the host receives the whole declared-length slice, only when it was completely filled from the packet", c06Receive},
 			{"C06/order", "one goroutine per direction: receive only from the packet loop, forward spawned once per processor", c06Order},
 			{"C06/write-serialised", "packets of the two writers of a tunnel (packet loop, relay goroutine) are not interleaved: WritePacket only under the tunnel's write mutex (C09's tunnel rule)", func(c *Ctx) { c09TunnelAs(c, "C06/write-serialised") }},
+			{"C06/header-tests", "a complete packet is never taken for a fragment: readHeader's length tests are strict (<)", func(c *Ctx) { headerTests(c, "C06/header-tests") }},
 			{"C06/transports", "both transports hand over whole reads and write exactly the packet given, once, without deadlines", func(c *Ctx) {
 				transportRules(c, "C06/transports", true)
 				c.Floor("C06/transports", 5, "two reads, constructor, two writes")
